@@ -56,7 +56,12 @@ impl super::Connector for SocksConnector {
     }
 
     fn features(&self) -> &[Feature] {
-        &[Feature::TcpForward, Feature::UdpForward, Feature::UdpBind]
+        // SOCKS4 has no UDP ASSOCIATE
+        if self.version == 4 {
+            &[Feature::TcpForward]
+        } else {
+            &[Feature::TcpForward, Feature::UdpForward, Feature::UdpBind]
+        }
     }
 
     async fn init(&mut self) -> Result<(), Error> {
